@@ -58,28 +58,35 @@ Section ObjectInvariant.
                                 (snd (fst o) <> 0 -> o_doc ob = s_doc si);
     oa_closed : forall o q, C o -> par o = Some q -> C q;
     oa_contents : forall S ob n o, objs s S = Some ob -> nget n (o_contents ob) = Some o ->
-                                   C o /\ par o = Some S /\ nm o = n }.
+                                   C o /\ par o = Some S /\ nm o = n;
+    oa_complete : forall o S, C o -> par o = Some S ->
+                              exists sb, objs s S = Some sb /\ nget (nm o) (o_contents sb) = Some o;
+    oa_cnodup : forall S sb, objs s S = Some sb -> NoDup (map fst (o_contents sb)) }.
 
   (* the registry part: System.allobjects is exactly { key o -> o | o exists } *)
   Record OR (C : oid -> Prop) (s : state) : Prop := {
     or_sound : forall k o, pget k (allobjs s) = Some o -> C o /\ key o = k;
-    or_complete : forall o, C o -> pget (key o) (allobjs s) = Some o }.
+    or_complete : forall o, C o -> pget (key o) (allobjs s) = Some o;
+    or_nodup : NoDup (map fst (allobjs s)) }.
 
   Lemma OA_ext C C' s : (forall o, C o <-> C' o) -> OA C s -> OA C' s.
   Proof.
-    intros He [H1 H2 H3 H4 H5 H6]. constructor.
+    intros He [H1 H2 H3 H4 H5 H6 H7 H8]. constructor.
     - exact H1.
     - intros o Ho. apply H2, He, Ho.
     - intros o. rewrite H3. apply He.
     - exact H4.
     - intros o q Ho Hq. apply He. eapply H5; [apply He; exact Ho|exact Hq].
     - intros S ob n o Hs Hn. destruct (H6 S ob n o Hs Hn) as (A & B & D). split; [apply He; exact A|auto].
+    - intros o S Ho Hp. apply H7; [apply He; exact Ho|exact Hp].
+    - exact H8.
   Qed.
   Lemma OR_ext C C' s : (forall o, C o <-> C' o) -> OR C s -> OR C' s.
   Proof.
-    intros He [H1 H2]. constructor.
+    intros He [H1 H2 H3]. constructor.
     - intros k o Hk. destruct (H1 k o Hk) as [A B]. split; [apply He; exact A|exact B].
     - intros o Ho. apply H2, He, Ho.
+    - exact H3.
   Qed.
 
   Lemma full_name_key C s o : OA C s -> C o -> full_name s o = key o.
@@ -102,7 +109,7 @@ Section ObjectInvariant.
   Proof.
     intros Hk Hd HA. destruct (objs s o) as [ob|] eqn:Eo; [|rewrite (upd_obj_none s o f Eo); exact HA].
     rewrite (upd_obj_some s o f ob Eo). destruct (Hk ob) as (K1 & K2 & K3 & K4 & K5).
-    destruct HA as [H1 H2 H3 H4 H5 H6]. constructor.
+    destruct HA as [H1 H2 H3 H4 H5 H6 H7 H8]. constructor.
     - exact H1.
     - exact H2.
     - intros x. rewrite objs_set_obj. destruct (oid_eqb x o) eqn:E; [|apply H3].
@@ -114,15 +121,20 @@ Section ObjectInvariant.
     - exact H5.
     - intros S sb n x. rewrite objs_set_obj. destruct (oid_eqb S o) eqn:E; [|apply H6].
       apply oid_eqb_eq in E. subst S. intros Hx. inversion Hx; subst sb. rewrite K5. eapply H6; eassumption.
+    - intros x S Hx Hp. destruct (H7 x S Hx Hp) as (sb & Hs & Hn). rewrite objs_set_obj.
+      destruct (oid_eqb S o) eqn:E; [|exists sb; auto].
+      apply oid_eqb_eq in E. subst S. rewrite Eo in Hs. inversion Hs; subst sb. exists (f ob). rewrite K5. auto.
+    - intros S sb. rewrite objs_set_obj. destruct (oid_eqb S o) eqn:E; [|apply H8].
+      apply oid_eqb_eq in E. subst S. intros Hx. inversion Hx; subst sb. rewrite K5. eapply H8; eassumption.
   Qed.
   Lemma OR_upd C s o f : OR C s -> OR C (upd_obj s o f).
-  Proof. intros [H1 H2]. constructor; rewrite allobjs_upd_obj; assumption. Qed.
+  Proof. intros [H1 H2 H3]. constructor; rewrite allobjs_upd_obj; assumption. Qed.
 
   (* System.addObject of a NEW object of the static domain below an existing parent *)
   Lemma add_object_new C s o ob si P :
     OA C s -> OR C s -> ~ C o -> sobj p o = Some si -> par o = Some P -> C P ->
     o_tag ob = s_tag si -> o_kind ob = s_kind si -> o_name ob = nm o -> o_parent ob = Some P -> o_contents ob = [] ->
-    o_doc ob = s_doc si ->
+    (snd (fst o) <> 0 -> o_doc ob = s_doc si) ->
     let C' := fun x => C x \/ x = o in
     OA C' (add_object s o ob) /\ OR C' (add_object s o ob) /\
     (forall x, x <> o -> x <> P -> objs (add_object s o ob) x = objs s x) /\
@@ -141,7 +153,12 @@ Section ObjectInvariant.
     assert (O2 : forall x, objs s2 x = if oid_eqb x P then Some pb' else if oid_eqb x o then Some ob else objs s x)
       by (intros x; reflexivity).
     assert (HA2 : OA C' s2).
-    { destruct HA as [H1 H2 H3 H4 H5 H6]. constructor.
+    { assert (Hfree : nget (nm o) (o_contents pb) = None).
+      { destruct (nget (nm o) (o_contents pb)) as [ex|] eqn:E; [|reflexivity]. exfalso.
+        destruct (oa_contents C s HA P pb (nm o) ex EP E) as (Cex & Pex & Nex).
+        assert (ex = o) by (apply key_inj; [apply (oa_dom C s HA); exact Cex|congruence|apply key_same; congruence]).
+        subst ex. contradiction. }
+      destruct HA as [H1 H2 H3 H4 H5 H6 H7 H8]. constructor.
       - exact H1.
       - intros x [Hx| ->]; [apply H2; exact Hx|congruence].
       - intros x. rewrite O2. unfold C'. destruct (oid_eqb x P) eqn:E1'.
@@ -165,7 +182,21 @@ Section ObjectInvariant.
             split; [left; exact A|auto].
         + destruct (oid_eqb S o) eqn:E2.
           * intros Hx. inversion Hx; subst sb. rewrite Hcont. cbn. discriminate.
-          * intros Hx Hy. destruct (H6 S sb n x Hx Hy) as (A & B & D). split; [left; exact A|auto]. }
+          * intros Hx Hy. destruct (H6 S sb n x Hx Hy) as (A & B & D). split; [left; exact A|auto].
+      - intros x S [Hx| ->] Hp.
+        + destruct (H7 x S Hx Hp) as (sb & Hsb & Hn). rewrite O2.
+          destruct (oid_eqb S P) eqn:E1'.
+          * apply oid_eqb_eq in E1'. subst S. rewrite EP in Hsb. inversion Hsb; subst sb. exists pb'. split; [reflexivity|].
+            unfold pb'. cbn [with_contents o_contents]. rewrite nget_nset_other; [exact Hn|].
+            intros E. rewrite E in Hn. congruence.
+          * destruct (oid_eqb S o) eqn:E2; [|exists sb; auto].
+            apply oid_eqb_eq in E2. subst S. exfalso. apply HnC. apply H3. congruence.
+        + rewrite Hpar in Hp. inversion Hp; subst S. rewrite O2, oid_eqb_refl. exists pb'. split; [reflexivity|].
+          unfold pb'. cbn [with_contents o_contents]. apply nget_nset_same.
+      - intros S sb. rewrite O2. destruct (oid_eqb S P) eqn:E1'.
+        + intros Hx. inversion Hx; subst sb. unfold pb'. cbn [with_contents o_contents]. apply nset_keys_nodup.
+          eapply H8; exact EP.
+        + destruct (oid_eqb S o) eqn:E2; [|apply H8]. intros Hx. inversion Hx; subst sb. rewrite Hcont. constructor. }
     assert (Hk : full_name s2 o = key o) by (apply (full_name_key C' s2 o HA2); right; reflexivity).
     rewrite Hk.
     assert (Hnone : pget (key o) (allobjs s) = None).
@@ -176,8 +207,9 @@ Section ObjectInvariant.
       subst first. contradiction. }
     change (allobjs s2) with (allobjs s). rewrite Hnone.
     split; [|split; [|split; [|split]]].
-    - destruct HA2 as [H1 H2 H3 H4 H5 H6]. constructor; assumption.
-    - constructor.
+    - destruct HA2 as [H1 H2 H3 H4 H5 H6 H7 H8]. constructor; assumption.
+    - constructor; [| |cbn [set_all allobjs]; change (allobjs s2) with (allobjs s); rewrite map_app; cbn [map fst];
+                        apply NoDup_app_snoc; [exact (or_nodup C s HR)|apply pget_None_notin; exact Hnone]].
       + intros k x. cbn [set_all allobjs]. change (allobjs s2) with (allobjs s). rewrite pget_app.
         destruct (pget k (allobjs s)) as [y|] eqn:Ey.
         * intros Hx. inversion Hx; subst y. destruct (or_sound C s HR _ _ Ey) as [A B]. split; [left; exact A|exact B].
@@ -192,22 +224,88 @@ Section ObjectInvariant.
     - exists pb. split; [reflexivity|]. cbn [set_all objs]. rewrite O2, oid_eqb_refl. reflexivity.
   Qed.
 
+  Lemma key_root o : par o = None -> key o = [nm o].
+  Proof. intros H. unfold key, depth_fuel. rewrite Nat.add_comm. cbn [Nat.add qname_f]. rewrite H. reflexivity. Qed.
+
+  (* registration of a NEW root object (a top-level module) *)
+  Lemma add_root_new C s o ob si :
+    OA C s -> OR C s -> ~ C o -> sobj p o = Some si -> par o = None ->
+    o_tag ob = s_tag si -> o_kind ob = s_kind si -> o_name ob = nm o -> o_parent ob = None -> o_contents ob = [] ->
+    (snd (fst o) <> 0 -> o_doc ob = s_doc si) ->
+    let C' := fun x => C x \/ x = o in
+    let s' := set_all (set_obj s o ob) (allobjs s ++ [(key o, o)]) in
+    pget (key o) (allobjs s) = None /\ OA C' s' /\ OR C' s'.
+  Proof.
+    intros HA HR HnC Hs Hpar Htag Hkind Hname Hparent Hcont Hdoc C' s'.
+    assert (Hnone : pget (key o) (allobjs s) = None).
+    { destruct (pget (key o) (allobjs s)) as [first|] eqn:Ef; [|reflexivity]. exfalso.
+      destruct (or_sound C s HR _ _ Ef) as [Cf Kf].
+      assert (first = o) by (apply key_inj; [apply (oa_dom C s HA); exact Cf|congruence|exact Kf]).
+      subst first. contradiction. }
+    split; [exact Hnone|]. split.
+    - destruct HA as [H1 H2 H3 H4 H5 H6 H7 H8]. constructor.
+      + exact H1.
+      + intros x [Hx| ->]; [apply H2; exact Hx|congruence].
+      + intros x. unfold s', C'. cbn [set_all objs]. rewrite objs_set_obj. destruct (oid_eqb x o) eqn:E.
+        * apply oid_eqb_eq in E. subst x. split; [intros _; right; reflexivity|discriminate].
+        * rewrite H3. split; [tauto|]. intros [Hx| ->]; [exact Hx|rewrite oid_eqb_refl in E; discriminate].
+      + intros x xb sx. unfold s'. cbn [set_all objs]. rewrite objs_set_obj. destruct (oid_eqb x o) eqn:E; [|apply H4].
+        apply oid_eqb_eq in E. subst x. intros Hx Hsx. inversion Hx; subst xb. rewrite Hs in Hsx. inversion Hsx; subst sx.
+        rewrite Hpar. repeat split; auto.
+      + intros x q [Hx| ->] Hq; [left; eapply H5; eassumption|congruence].
+      + intros S sb n x. unfold s'. cbn [set_all objs]. rewrite objs_set_obj. destruct (oid_eqb S o) eqn:E.
+        * intros Hx. inversion Hx; subst sb. rewrite Hcont. cbn. discriminate.
+        * intros Hx Hy. destruct (H6 S sb n x Hx Hy) as (A & B & D). split; [left; exact A|auto].
+      + intros x S [Hx| ->] Hp; [|congruence].
+        destruct (H7 x S Hx Hp) as (sb & Hsb & Hn). unfold s'. cbn [set_all objs]. rewrite objs_set_obj.
+        destruct (oid_eqb S o) eqn:E; [|exists sb; auto].
+        apply oid_eqb_eq in E. subst S. exfalso. apply HnC. apply H3. congruence.
+      + intros S sb. unfold s'. cbn [set_all objs]. rewrite objs_set_obj. destruct (oid_eqb S o); [|apply H8].
+        intros Hx. inversion Hx; subst sb. rewrite Hcont. constructor.
+    - constructor; [| |unfold s'; cbn [set_all allobjs]; rewrite map_app; cbn [map fst];
+                        apply NoDup_app_snoc; [exact (or_nodup C s HR)|apply pget_None_notin; exact Hnone]].
+      + intros k x. unfold s'. cbn [set_all allobjs]. rewrite pget_app.
+        destruct (pget k (allobjs s)) as [y|] eqn:Ey.
+        * intros Hx. inversion Hx; subst y. destruct (or_sound C s HR _ _ Ey) as [A B]. split; [left; exact A|exact B].
+        * cbn [pget]. destruct (path_eqb (key o) k) eqn:Ek; [|discriminate].
+          apply path_eqb_eq in Ek. intros Hx. inversion Hx; subst x. split; [right; reflexivity|exact Ek].
+      + intros x Hx. unfold s'. cbn [set_all allobjs]. rewrite pget_app. destruct Hx as [Hx| ->].
+        * rewrite (or_complete C s HR x Hx). reflexivity.
+        * rewrite Hnone. cbn [pget]. rewrite path_eqb_refl. reflexivity.
+  Qed.
+
   (* what a transition leaves untouched on the objects that already exist: docstring, __all__, alias map *)
   Definition meta_pres (s s' : state) : Prop :=
     forall o ob, objs s o = Some ob ->
-                 exists ob', objs s' o = Some ob' /\ o_doc ob' = o_doc ob /\ o_all ob' = o_all ob.
+                 exists ob', objs s' o = Some ob' /\ o_doc ob' = o_doc ob /\ o_all ob' = o_all ob /\ o_alias ob' = o_alias ob.
   Lemma meta_pres_refl s : meta_pres s s.
   Proof. intros o ob H. exists ob. auto. Qed.
   Lemma meta_pres_trans a b c : meta_pres a b -> meta_pres b c -> meta_pres a c.
   Proof.
-    intros H1 H2 o ob Ho. destruct (H1 o ob Ho) as (ob1 & E1 & A1 & A2).
-    destruct (H2 o ob1 E1) as (ob2 & E2 & B1 & B2). exists ob2. repeat split; congruence.
+    intros H1 H2 o ob Ho. destruct (H1 o ob Ho) as (ob1 & E1 & A1 & A2 & A3).
+    destruct (H2 o ob1 E1) as (ob2 & E2 & B1 & B2 & B3). exists ob2. repeat split; congruence.
   Qed.
+
+  (* the same, except that the alias map of ONE object (the module being walked) may change *)
+  Definition meta_weak (cur : oid) (s s' : state) : Prop :=
+    forall o ob, objs s o = Some ob ->
+                 exists ob', objs s' o = Some ob' /\ o_doc ob' = o_doc ob /\ o_all ob' = o_all ob /\
+                             (o <> cur -> o_alias ob' = o_alias ob).
+  Lemma meta_weak_refl cur s : meta_weak cur s s.
+  Proof. intros o ob H. exists ob. auto. Qed.
+  Lemma meta_weak_trans cur a b c : meta_weak cur a b -> meta_weak cur b c -> meta_weak cur a c.
+  Proof.
+    intros H1 H2 o ob Ho. destruct (H1 o ob Ho) as (ob1 & E1 & A1 & A2 & A3).
+    destruct (H2 o ob1 E1) as (ob2 & E2 & B1 & B2 & B3). exists ob2. repeat split; try congruence.
+    intros Hne. rewrite (B3 Hne). apply A3. exact Hne.
+  Qed.
+  Lemma meta_pres_weak cur s s' : meta_pres s s' -> meta_weak cur s s'.
+  Proof. intros H o ob Ho. destruct (H o ob Ho) as (ob' & E & A1 & A2 & A3). exists ob'. auto. Qed.
 
   Lemma add_object_new_meta C s o ob si P :
     OA C s -> OR C s -> ~ C o -> sobj p o = Some si -> par o = Some P -> C P ->
     o_tag ob = s_tag si -> o_kind ob = s_kind si -> o_name ob = nm o -> o_parent ob = Some P -> o_contents ob = [] ->
-    o_doc ob = s_doc si ->
+    (snd (fst o) <> 0 -> o_doc ob = s_doc si) ->
     meta_pres s (add_object s o ob).
   Proof.
     intros HA HR HnC Hs Hpar HP Htag Hkind Hname Hparent Hcont Hdoc.
@@ -222,13 +320,14 @@ Section ObjectInvariant.
 
   Lemma upd_keeps_all C s o f :
     keeps f -> (forall ob, o_doc (f ob) = o_doc ob /\ o_all (f ob) = o_all ob) -> OA C s -> OR C s ->
-    OA C (upd_obj s o f) /\ OR C (upd_obj s o f) /\ meta_pres s (upd_obj s o f).
+    OA C (upd_obj s o f) /\ OR C (upd_obj s o f) /\ meta_weak o s (upd_obj s o f).
   Proof.
     intros Hk Hd HA HR. split; [apply OA_upd; [exact Hk|right; intros ob; apply Hd|exact HA]|].
     split; [apply OR_upd; exact HR|].
     intros x xb Hx. destruct (objs s o) as [ob|] eqn:Eo; [|rewrite (upd_obj_none s o f Eo); exists xb; auto].
     rewrite (upd_obj_some s o f ob Eo). destruct (oid_eq_dec x o) as [->|Hne].
-    - rewrite objs_set_obj_same. rewrite Eo in Hx. inversion Hx; subst xb. exists (f ob). destruct (Hd ob). auto.
+    - rewrite objs_set_obj_same. rewrite Eo in Hx. inversion Hx; subst xb. exists (f ob). destruct (Hd ob).
+      repeat split; auto. intros Hc. contradiction.
     - rewrite objs_set_obj_other by exact Hne. exists xb. auto.
   Qed.
 
@@ -261,7 +360,7 @@ Section ObjectInvariant.
     intros HA HR Hst HnC HP Hn Hp C' s'. subst s'. cbn [exec_stmt]. cbv zeta.
     pose proof (sobj_stmt m i 0 _ Hst) as Hs. cbn [stmt_info N.eqb] in Hs.
     set (ob := new_obj T_FUNCTION K_FUNCTION name (Some (m, 0, 0)) doc).
-    destruct (add_object_new C s (m, i, 0) ob _ (m, 0, 0) HA HR HnC Hs Hp HP eq_refl eq_refl (eq_sym Hn) eq_refl eq_refl eq_refl)
+    destruct (add_object_new C s (m, i, 0) ob _ (m, 0, 0) HA HR HnC Hs Hp HP eq_refl eq_refl (eq_sym Hn) eq_refl eq_refl (fun _ => eq_refl))
       as (A & B & _).
     split; [exact A|]. split; [exact B|].
     eapply add_object_new_meta; try eassumption; try reflexivity. symmetry; exact Hn.
@@ -280,7 +379,7 @@ Section ObjectInvariant.
     unfold contents_of. rewrite Em.
     rewrite (name_free_in_contents C s (m, 0, 0) mb name (m, i, 0) HA Em ltac:(congruence) HnC Hp Hn).
     set (ob := new_obj T_ATTRIBUTE K_VARIABLE name (Some (m, 0, 0)) doc).
-    destruct (add_object_new C s (m, i, 0) ob _ (m, 0, 0) HA HR HnC Hs Hp HP eq_refl eq_refl (eq_sym Hn) eq_refl eq_refl eq_refl)
+    destruct (add_object_new C s (m, i, 0) ob _ (m, 0, 0) HA HR HnC Hs Hp HP eq_refl eq_refl (eq_sym Hn) eq_refl eq_refl (fun _ => eq_refl))
       as (A & B & _).
     split; [exact A|]. split; [exact B|].
     eapply add_object_new_meta; try eassumption; try reflexivity. symmetry; exact Hn.
@@ -315,7 +414,7 @@ Section ObjectInvariant.
     destruct mem as [[mk name] doc]. cbn [fst snd] in Hn. cbn [add_member]. unfold member_info in Hs.
     destruct (N.eqb mk 0) eqn:Emk; cbn [fst snd].
     - set (ob := new_obj T_FUNCTION K_METHOD name (Some (m, i, 0)) doc).
-      destruct (add_object_new C s (m, i, jn k) ob _ (m, i, 0) HA HR HnC Hs Hp Hcls eq_refl eq_refl (eq_sym Hn) eq_refl eq_refl eq_refl)
+      destruct (add_object_new C s (m, i, jn k) ob _ (m, i, 0) HA HR HnC Hs Hp Hcls eq_refl eq_refl (eq_sym Hn) eq_refl eq_refl (fun _ => eq_refl))
         as (A & B & _).
       split; [exact A|]. split; [exact B|]. split; [|apply jn_succ].
       eapply add_object_new_meta; try eassumption; try reflexivity. symmetry; exact Hn.
@@ -324,7 +423,7 @@ Section ObjectInvariant.
       rewrite (name_free_in_contents C s (m, i, 0) cb name (m, i, jn k) HA Ec ltac:(congruence) HnC Hp Hn).
       cbn [fst snd].
       set (ob := new_obj T_ATTRIBUTE K_CLASS_VARIABLE name (Some (m, i, 0)) doc).
-      destruct (add_object_new C s (m, i, jn k) ob _ (m, i, 0) HA HR HnC Hs Hp Hcls eq_refl eq_refl (eq_sym Hn) eq_refl eq_refl eq_refl)
+      destruct (add_object_new C s (m, i, jn k) ob _ (m, i, 0) HA HR HnC Hs Hp Hcls eq_refl eq_refl (eq_sym Hn) eq_refl eq_refl (fun _ => eq_refl))
         as (A & B & _).
       split; [exact A|]. split; [exact B|]. split; [|apply jn_succ].
       eapply add_object_new_meta; try eassumption; try reflexivity. symmetry; exact Hn.
@@ -393,13 +492,14 @@ Section ObjectInvariant.
     intros HA HR Hst Hfresh HP Hn Hp Hmem C' s'. subst s'. cbn [exec_stmt]. cbv zeta.
     pose proof (sobj_stmt m i 0 _ Hst) as Hs. cbn [stmt_info N.eqb] in Hs.
     match goal with |- context [add_object s (m, i, 0) ?x] => set (ob := x) end.
-    destruct (add_object_new C s (m, i, 0) ob _ (m, 0, 0) HA HR (Hfresh 0) Hs Hp HP eq_refl eq_refl (eq_sym Hn) eq_refl eq_refl eq_refl)
+    destruct (add_object_new C s (m, i, 0) ob _ (m, 0, 0) HA HR (Hfresh 0) Hs Hp HP eq_refl eq_refl (eq_sym Hn) eq_refl eq_refl (fun _ => eq_refl))
       as (A1 & R1 & _).
     assert (M1 : meta_pres s (add_object s (m, i, 0) ob)).
-    { eapply add_object_new_meta; try eassumption; try reflexivity. symmetry; exact Hn. }
+    { exact (add_object_new_meta C s (m, i, 0) ob _ (m, 0, 0) HA HR (Hfresh 0) Hs Hp HP eq_refl eq_refl (eq_sym Hn)
+                                 eq_refl eq_refl (fun _ => eq_refl)). }
     set (C1 := fun x => C x \/ x = (m, i, 0)) in *.
     assert (Hfresh1 : forall k', (0 <= k')%nat -> ~ C1 (m, i, jn k')).
-    { intros k' _ [Hx|Hx]; [exact (Hfresh _ Hx)|]. inversion Hx as [Hj]. unfold jn in Hj. lia. }
+    { intros k' _ [Hx|Hx]; [exact (Hfresh _ Hx)|]. assert (Hj : jn k' = 0) by congruence. unfold jn in Hj. lia. }
     destruct (add_members_new m i _ _ _ members Hst Hmem members 0%nat C1 _ eq_refl A1 R1 (or_intror eq_refl) Hfresh1)
       as (A2 & R2 & M2).
     change (jn 0) with 1 in A2, R2, M2.
@@ -413,23 +513,29 @@ Section ObjectInvariant.
 End ObjectInvariant.
 
 (* ================================================================ the invariant of the machine (no re-export) *)
-Section Glue.
+Section Created.
   Variable p : project.
-  Hypothesis Hinj : keys_distinct p.
-  Hypothesis Hnomove : no_move p.
-
-  Notation nm := (sname p).
-  Notation par := (sparent p).
-
-  Lemma key_is_skey o : key p nm par o = skey p o.
-  Proof. reflexivity. Qed.
-
   (* the i-th statement of module m has not been executed yet *)
-  Definition pending (s : state) (m i : N) : Prop :=
+  Definition pending_of (s : state) (m i : N) : Prop :=
     In m (unproc s) \/ exists fr st, In fr (frames s) /\ f_mod fr = m /\ In (MStmt i st) (f_todo fr).
 
-  Definition created (s : state) (o : oid) : Prop :=
-    sobj p o <> None /\ (snd (fst o) = 0 \/ ~ pending s (fst (fst o)) (snd (fst o))).
+  Definition created_of (s : state) (o : oid) : Prop :=
+    sobj p o <> None /\ (snd (fst o) = 0 \/ ~ pending_of s (fst (fst o)) (snd (fst o))).
+End Created.
+
+(* The invariant is stated for ANY expected-name / expected-parent functions nm, par whose qualified names are
+   distinct and that agree with the source text on the objects that do not exist yet (`Good` is whatever the
+   instance needs to know for that); the instance nm = sname, par = sparent is the run without re-export. *)
+Section Glue.
+  Variable p : project.
+  Variables (nm : oid -> N) (par : oid -> option oid).
+  Hypothesis Hinj : forall o o', sobj p o <> None -> sobj p o' <> None -> key p nm par o = key p nm par o' -> o = o'.
+  Variable Good : state -> Prop.
+  Hypothesis Hstatic : forall s o, Good s -> sobj p o <> None -> ~ created_of p s o ->
+                                   nm o = sname p o /\ par o = sparent p o.
+
+  Notation pending := pending_of.
+  Notation created := (created_of p).
 
   Record Inv (s : state) : Prop := {
     i_ctl : Ctl p s;
@@ -439,15 +545,16 @@ Section Glue.
                           exists mi pre, modinfo_of p (f_mod fr) = Some mi /\ expand_stmts (m_stmts mi) = pre ++ f_todo fr;
     i_meta : forall m mb mi, objs s (m, 0, 0) = Some mb -> modinfo_of p m = Some mi ->
                              (In m (unproc s) -> o_doc mb = 0 /\ o_all mb = None) /\
-                             (~ In m (unproc s) -> o_doc mb = m_doc mi /\ o_all mb = last_all (m_stmts mi) None) }.
+                             (~ In m (unproc s) -> o_doc mb = m_doc mi /\ o_all mb = last_all (m_stmts mi) None);
+    i_good : Good s }.
 
   (* ---- helpers ---- *)
   Lemma OA_same C s s' : objs s' = objs s -> dfuel s' = dfuel s -> OA p nm par C s -> OA p nm par C s'.
   Proof.
-    intros Ho Hd [H1 H2 H3 H4 H5 H6]. constructor; try rewrite Ho; try rewrite Hd; assumption.
+    intros Ho Hd [H1 H2 H3 H4 H5 H6 H7 H8]. constructor; try rewrite Ho; try rewrite Hd; assumption.
   Qed.
   Lemma OR_same C s s' : allobjs s' = allobjs s -> OR p nm par C s -> OR p nm par C s'.
-  Proof. intros Ha [H1 H2]. constructor; rewrite Ha; assumption. Qed.
+  Proof. intros Ha [H1 H2 H3]. constructor; rewrite Ha; assumption. Qed.
 
   Lemma sobj_stmt_inv m i j : sobj p (m, i, j) <> None -> i <> 0 ->
     exists st, stmt_at p m i = Some st /\ local_stmt st = true /\ stmt_info m i j st <> None.
@@ -475,9 +582,32 @@ Section Glue.
   Qed.
 
   (* ---- processModule starts ---- *)
-  Lemma Inv_begin s m s' : Inv s -> begin_module p s m = Next s' -> Inv s'.
+  Lemma created_begin s m s' :
+    Ctl p s -> begin_module p s m = Next s' -> forall o, created s o <-> created s' o.
   Proof.
-    intros HI Hb. pose proof (Ctl_begin p s m s' (i_ctl s HI) Hb) as HC'.
+    intros HC Hb.
+    destruct (begin_module_ctl p _ _ _ Hb) as (mi & Hmi & Hmst & Hin & Hun & Hfr & _ & Hdf & _).
+    assert (Hnd : NoDup (unproc s)) by apply (c_nodup p s HC).
+    assert (Hpend : forall m' i, i <> 0 -> (exists j, sobj p (m', i, j) <> None) -> (pending s' m' i <-> pending s m' i)).
+    { intros m' i Hi (j & Hj). unfold pending_of. rewrite Hun, Hfr.
+      destruct (N.eq_dec m' m) as [->|Hne].
+      - split; [intros _; left; exact Hin|]. intros _. right.
+        destruct (sobj_stmt_inv m i j Hj Hi) as (st & Hst & Hl & _).
+        eexists _, st. split; [left; reflexivity|]. cbn [f_mod f_todo]. split; [reflexivity|].
+        eapply stmt_at_In_expand; eassumption.
+      - rewrite (remove1_In_iff m (unproc s) m' Hnd). split.
+        + intros [[H _]|(fr & st & [<-|Hf] & Hm & Hst)]; [left; exact H|cbn [f_mod] in Hm; congruence|right; eauto].
+        + intros [H|(fr & st & Hf & Hm & Hst)]; [left; split; assumption|right; exists fr, st; split; [right; exact Hf|auto]]. }
+    intros [[m' i] j]. unfold created_of. cbn [fst snd]. split; intros [Hd H]; (split; [exact Hd|]).
+    - destruct H as [H|H]; [left; exact H|]. destruct (N.eq_dec i 0) as [->|Hi]; [left; reflexivity|].
+      right. rewrite (Hpend m' i Hi (ex_intro _ j Hd)). exact H.
+    - destruct H as [H|H]; [left; exact H|]. destruct (N.eq_dec i 0) as [->|Hi]; [left; reflexivity|].
+      right. rewrite <- (Hpend m' i Hi (ex_intro _ j Hd)). exact H.
+  Qed.
+
+  Lemma Inv_begin s m s' : Inv s -> begin_module p s m = Next s' -> Good s' -> Inv s'.
+  Proof.
+    intros HI Hb HG'. pose proof (Ctl_begin p s m s' (i_ctl s HI) Hb) as HC'.
     destruct (begin_module_ctl p _ _ _ Hb) as (mi & Hmi & Hmst & Hin & Hun & Hfr & _ & Hdf & _).
     destruct (begin_module_inv p _ _ _ Hb) as (mi' & Hmi' & _ & _ & Hs'). rewrite Hmi in Hmi'. inversion Hmi'; subst mi'.
     set (f := fun mb => with_doc (m_doc mi) (with_all (last_all (m_stmts mi) None) mb)) in *.
@@ -487,24 +617,7 @@ Section Glue.
     assert (Hnd : NoDup (unproc s)) by apply (c_nodup p s (i_ctl s HI)).
     assert (Hfm : forall fr, In fr (frames s) -> f_mod fr <> m).
     { intros fr Hf E. destruct (c_frames p s (i_ctl s HI) fr Hf) as [A _]. congruence. }
-    (* created is unchanged *)
-    assert (Hpend : forall m' i, sobj p (m', i, 0) <> None \/ True -> i <> 0 ->
-                                 (exists j, sobj p (m', i, j) <> None) -> (pending s' m' i <-> pending s m' i)).
-    { intros m' i _ Hi (j & Hj). unfold pending. rewrite Hun, Hfr.
-      destruct (N.eq_dec m' m) as [->|Hne].
-      - split; [intros _; left; exact Hin|]. intros _. right.
-        destruct (sobj_stmt_inv m i j Hj Hi) as (st & Hst & Hl & _).
-        eexists _, st. split; [left; reflexivity|]. cbn [f_mod f_todo]. split; [reflexivity|].
-        eapply stmt_at_In_expand; eassumption.
-      - rewrite (remove1_In_iff m (unproc s) m' Hnd). split.
-        + intros [[H _]|(fr & st & [<-|Hf] & Hm & Hst)]; [left; exact H|cbn [f_mod] in Hm; congruence|right; eauto].
-        + intros [H|(fr & st & Hf & Hm & Hst)]; [left; split; assumption|right; exists fr, st; split; [right; exact Hf|auto]]. }
-    assert (Hcr : forall o, created s o <-> created s' o).
-    { intros [[m' i] j]. unfold created. cbn [fst snd]. split; intros [Hd H]; (split; [exact Hd|]).
-      - destruct H as [H|H]; [left; exact H|]. destruct (N.eq_dec i 0) as [->|Hi]; [left; reflexivity|].
-        right. rewrite (Hpend m' i (or_intror I) Hi (ex_intro _ j Hd)). exact H.
-      - destruct H as [H|H]; [left; exact H|]. destruct (N.eq_dec i 0) as [->|Hi]; [left; reflexivity|].
-        right. rewrite <- (Hpend m' i (or_intror I) Hi (ex_intro _ j Hd)). exact H. }
+    pose proof (created_begin s m s' (i_ctl s HI) Hb) as Hcr.
     constructor.
     - exact HC'.
     - eapply OA_ext; [exact Hcr|]. eapply (OA_same _ (upd_obj s0 (m, 0, 0) f)); [exact Hobjs| |].
@@ -528,32 +641,35 @@ Section Glue.
           - rewrite (upd_obj_none s0 _ f E0) in Hmb. exact Hmb. }
         destruct (i_meta s HI m' mb mi' Hmb0 Hmi'') as [A B].
         rewrite (remove1_In_iff m (unproc s) m' Hnd). split; [intros [Hx _]; auto|]. intros Hx. apply B. tauto.
+    - exact HG'.
   Qed.
 
   (* ---- processModule ends ---- *)
   Lemma Inv_finish s fr rest :
     Inv s -> frames s = fr :: rest -> f_todo fr = [] ->
     Ctl p (set_frames (set_mst s (f_mod fr) PROCESSED) rest) ->
+    Good (set_frames (set_mst s (f_mod fr) PROCESSED) rest) ->
     Inv (set_frames (set_mst s (f_mod fr) PROCESSED) rest).
   Proof.
-    intros HI Hf Ht HC'. set (s' := set_frames (set_mst s (f_mod fr) PROCESSED) rest).
+    intros HI Hf Ht HC' HG'. set (s' := set_frames (set_mst s (f_mod fr) PROCESSED) rest).
     assert (Hpend : forall m i, pending s' m i <-> pending s m i).
-    { intros m i. unfold pending. cbn [s' set_frames set_mst unproc frames]. rewrite Hf. split.
+    { intros m i. unfold pending_of. cbn [s' set_frames set_mst unproc frames]. rewrite Hf. split.
       - intros [H|(fr0 & st & Hin & Hm & Hst)]; [left; exact H|right; exists fr0, st; split; [right; exact Hin|auto]].
       - intros [H|(fr0 & st & [<-|Hin] & Hm & Hst)]; [left; exact H|rewrite Ht in Hst; destruct Hst|right; eauto]. }
     assert (Hcr : forall o, created s o <-> created s' o).
-    { intros o. unfold created. rewrite Hpend. tauto. }
+    { intros o. unfold created_of. rewrite Hpend. tauto. }
     constructor.
     - exact HC'.
     - eapply OA_ext; [exact Hcr|]. eapply (OA_same _ s); [reflexivity|reflexivity|exact (i_oa s HI)].
     - eapply OR_ext; [exact Hcr|]. eapply (OR_same _ s); [reflexivity|exact (i_or s HI)].
     - intros fr0 Hin. apply (i_suffix s HI). rewrite Hf. right. exact Hin.
     - intros m mb mi Hmb Hmi. exact (i_meta s HI m mb mi Hmb Hmi).
+    - exact HG'.
   Qed.
 
   (* ---- one micro-operation ---- *)
   Lemma created_module s m mi : modinfo_of p m = Some mi -> created s (m, 0, 0).
-  Proof. intros H. unfold created, sobj. cbn [fst snd N.eqb]. rewrite H. split; [discriminate|left; reflexivity]. Qed.
+  Proof. intros H. unfold created_of, sobj. cbn [fst snd N.eqb]. rewrite H. split; [discriminate|left; reflexivity]. Qed.
 
   Section Op.
     Variables (s : state) (fr : frame) (rest : list frame) (op : mop) (todo : list mop) (s1 : state) (fr1 : frame).
@@ -588,7 +704,7 @@ Section Glue.
     Lemma pending_after m' i :
       pending s2 m' i <-> pending s m' i /\ ~ (m' = m /\ exists st, op = MStmt i st).
     Proof.
-      destruct Hctl as (_ & Hu & _). unfold pending. cbn [s2 set_frames unproc frames]. rewrite Hu, Hf. split.
+      destruct Hctl as (_ & Hu & _). unfold pending_of. cbn [s2 set_frames unproc frames]. rewrite Hu, Hf. split.
       - intros [H|(fr0 & st & [<-|Hin] & Hm & Hst)].
         + split; [left; exact H|]. intros [-> _]. exact (op_not_unproc H).
         + rewrite Hfm in Hm. rewrite Hft in Hst. split.
@@ -609,7 +725,7 @@ Section Glue.
       created s2 o <->
       created s o \/ (sobj p o <> None /\ fst (fst o) = m /\ snd (fst o) <> 0 /\ exists st, op = MStmt (snd (fst o)) st).
     Proof.
-      unfold created. rewrite pending_after. destruct o as [[m' i] j]. cbn [fst snd]. split.
+      unfold created_of. rewrite pending_after. destruct o as [[m' i] j]. cbn [fst snd]. split.
       - intros [Hd [Hz|Hn]]; [left; split; [exact Hd|left; exact Hz]|].
         destruct (N.eq_dec i 0) as [->|Hi]; [left; split; [exact Hd|left; reflexivity]|].
         destruct (N.eq_dec m' m) as [->|Hm].
@@ -628,9 +744,9 @@ Section Glue.
 
     (* everything but the object part *)
     Lemma Inv_op_core :
-      Ctl p s2 -> OA p nm par (created s2) s1 -> OR p nm par (created s2) s1 -> meta_pres s s1 -> Inv s2.
+      Ctl p s2 -> Good s2 -> OA p nm par (created s2) s1 -> OR p nm par (created s2) s1 -> meta_weak (m, 0, 0) s s1 -> Inv s2.
     Proof.
-      intros HC2 HA HR HM. constructor.
+      intros HC2 HG2 HA HR HM. constructor.
       - exact HC2.
       - eapply (OA_same _ s1); [reflexivity|reflexivity|exact HA].
       - eapply (OR_same _ s1); [reflexivity|exact HR].
@@ -641,8 +757,543 @@ Section Glue.
         destruct Hctl as (_ & Hu & _). rewrite Hu.
         pose proof (created_module s m' mi Hmi) as Hc. apply (oa_exists _ _ _ _ _ (i_oa s HI)) in Hc.
         destruct (objs s (m', 0, 0)) as [mb0|] eqn:E0; [|congruence].
-        destruct (HM _ _ E0) as (mb1 & E1 & D1 & D2). rewrite Hmb in E1. inversion E1; subst mb1.
+        destruct (HM _ _ E0) as (mb1 & E1 & D1 & D2 & _). rewrite Hmb in E1. inversion E1; subst mb1.
         rewrite D1, D2. exact (i_meta s HI m' mb0 mi E0 Hmi).
+      - exact HG2.
     Qed.
   End Op.
+
+  Lemma sname_stmt m i j st si :
+    stmt_at p m i = Some st -> stmt_info m i j st = Some si ->
+    sname p (m, i, j) = s_name si /\ sparent p (m, i, j) = s_parent si.
+  Proof. intros Hst Hsi. unfold sname, sparent. rewrite (sobj_stmt p m i j st Hst), Hsi. auto. Qed.
+
+  Lemma member_info_name m i mem : s_name (member_info m i mem) = snd (fst mem) /\ s_parent (member_info m i mem) = Some (m, i, 0).
+  Proof. destruct mem as [[mk name] doc]. unfold member_info. destruct (N.eqb mk 0); auto. Qed.
+
+  Lemma exports_static s m mi mb :
+    Inv s -> modinfo_of p m = Some mi -> ~ In m (unproc s) -> objs s (m, 0, 0) = Some mb ->
+    exports_of s (m, 0, 0) = exports_of_mod mi.
+  Proof.
+    intros HI Hmi Hnu Hmb. unfold exports_of, exports_of_mod. rewrite Hmb.
+    destruct (i_meta s HI m mb mi Hmb Hmi) as [_ B]. destruct (B Hnu) as [_ ->]. reflexivity.
+  Qed.
+
+  Lemma handle_reexport_not_exported s cur ex o a g : ~ In a ex -> handle_reexport s cur ex o a g = (s, false).
+  Proof. intros H. unfold handle_reexport. apply memN_false in H. rewrite H. reflexivity. Qed.
+
+  (* what one micro-operation that is not a re-exporting import does to the objects and the registry *)
+  Lemma op_triple s fr rest op todo s1 fr1 en :
+    Inv s -> frames s = fr :: rest -> f_todo fr = op :: todo ->
+    exec_op s (with_todo todo fr) op = (s1, fr1, en) ->
+    (forall o a mi, op = MImportName o a -> modinfo_of p (f_mod fr) = Some mi -> ~ In a (exports_of_mod mi)) ->
+    (forall mi, op = MImportAll -> modinfo_of p (f_mod fr) = Some mi -> exports_of_mod mi = []) ->
+    OA p nm par (created (set_frames s1 (fr1 :: rest))) s1 /\ OR p nm par (created (set_frames s1 (fr1 :: rest))) s1 /\
+    meta_weak (f_mod fr, 0, 0) s s1.
+  Proof.
+    intros HI Hf Ht He Hop_name Hop_all.
+    pose proof (ctl_exec_op s (with_todo todo fr) op) as Hctl. pose proof (exec_op_frame s (with_todo todo fr) op) as Hfr.
+    rewrite He in Hctl, Hfr. cbn [fst snd] in Hctl, Hfr. destruct Hfr as (Hfm & Hft). cbn [with_todo f_mod f_todo] in Hfm, Hft.
+    set (m := f_mod fr) in *. set (s2 := set_frames s1 (fr1 :: rest)) in *.
+    destruct (op_mi s fr rest op todo HI Hf Ht) as (mi & pre & Hmi & Hexp). fold m in Hmi.
+    pose proof (op_not_unproc s fr rest HI Hf) as Hnu. fold m in Hnu.
+    pose proof (created_after s fr rest op todo s1 fr1 HI Hf Ht Hctl Hfm Hft) as Hcr. fold m s2 in Hcr.
+    assert (Hmod : created s (m, 0, 0)) by (eapply created_module; exact Hmi).
+    destruct (objs s (m, 0, 0)) as [mb|] eqn:Emb;
+      [|exfalso; apply (oa_exists _ _ _ _ _ (i_oa s HI)) in Hmod; congruence].
+    assert (Hsame : (forall o, created s o <-> created s2 o) ->
+                    OA p nm par (created s) s1 /\ OR p nm par (created s) s1 /\ meta_weak (m, 0, 0) s s1 ->
+                    OA p nm par (created s2) s1 /\ OR p nm par (created s2) s1 /\ meta_weak (m, 0, 0) s s1).
+    { intros Hext (A & R & M). split; [eapply OA_ext; [exact Hext|exact A]|]. split; [eapply OR_ext; [exact Hext|exact R]|exact M]. }
+    assert (Hnew : forall C', (forall o, C' o <-> created s2 o) ->
+                    OA p nm par C' s1 /\ OR p nm par C' s1 /\ meta_pres s s1 ->
+                    OA p nm par (created s2) s1 /\ OR p nm par (created s2) s1 /\ meta_weak (m, 0, 0) s s1).
+    { intros C' Hext (A & R & M). split; [eapply OA_ext; [exact Hext|exact A]|]. split; [eapply OR_ext; [exact Hext|exact R]|].
+      apply meta_pres_weak. exact M. }
+    assert (Hunch : (forall i st, op = MStmt i st -> forall j, stmt_info m i j st = None) ->
+                    forall o, created s o <-> created s2 o).
+    { intros Hnone o. rewrite Hcr. split; [auto|]. intros [H|(Hd & Hm' & Hi & st & Hop)]; [exact H|]. exfalso.
+      destruct o as [[m' i] j]. cbn [fst snd] in *. subst m'.
+      assert (Hin : In (MStmt i st) (expand_stmts (m_stmts mi))) by (rewrite Hexp, Hop; apply in_or_app; right; left; reflexivity).
+      destruct (In_expand_stmt_at m i st mi Hmi Hin) as [Hst _].
+      apply Hd. rewrite (sobj_stmt p m i j st Hst). apply (Hnone i st Hop). }
+    pose proof (i_oa s HI) as HA. pose proof (i_or s HI) as HR.
+    destruct op as [i st|level modname| |orgname|orgname asname|]; cbn [exec_op] in He.
+    - (* a statement *)
+      inversion He; subst s1 fr1 en. clear He. change (f_mod (with_todo todo fr)) with m in *.
+      assert (Hin : In (MStmt i st) (expand_stmts (m_stmts mi))) by (rewrite Hexp; apply in_or_app; right; left; reflexivity).
+      destruct (In_expand_stmt_at m i st mi Hmi Hin) as [Hst Hi].
+      assert (Hpend : pending s m i).
+      { right. exists fr, st. split; [rewrite Hf; left; reflexivity|]. split; [reflexivity|]. rewrite Ht. left. reflexivity. }
+      assert (Hfresh : forall j, ~ created s (m, i, j)).
+      { intros j [_ [Hz|Hn]]; cbn [fst snd] in *; [contradiction|]. apply Hn. exact Hpend. }
+      destruct st as [cname cdoc bases members|name doc|name doc|target value|target asname|lv mn names|lv mn|names].
+      + (* class *)
+        destruct (sname_stmt m i 0 _ _ Hst eq_refl) as [Hn0 Hp0]. cbn [s_name s_parent] in Hn0, Hp0.
+        destruct (Hstatic s (m, i, 0) (i_good s HI) ltac:(rewrite (sobj_stmt p m i 0 _ Hst); discriminate) (Hfresh 0)) as [Hq1 Hq2].
+        rewrite <- Hq1 in Hn0. rewrite <- Hq2 in Hp0.
+        assert (Hmem : forall k mem, nth_error members k = Some mem ->
+                                     nm (m, i, jn k) = snd (fst mem) /\ par (m, i, jn k) = Some (m, i, 0)).
+        { intros k mem Hk. pose proof (sobj_member p m i k _ _ _ _ mem Hst Hk) as Hs.
+          destruct (Hstatic s (m, i, jn k) (i_good s HI) ltac:(congruence) (Hfresh (jn k))) as [-> ->].
+          unfold sname, sparent. rewrite Hs. apply member_info_name. }
+        eapply Hnew; [|exact (exec_class_new p nm par Hinj (created s) s m i cname cdoc bases members HA HR Hst Hfresh Hmod Hn0 Hp0 Hmem)].
+        intros o. rewrite Hcr. split.
+        * intros [H|[->|(k & Hk & ->)]]; [left; exact H| |].
+          -- right. cbn [fst snd]. rewrite (sobj_stmt p m i 0 _ Hst). cbn [stmt_info N.eqb].
+             split; [discriminate|]. split; [reflexivity|]. split; [exact Hi|eauto].
+          -- right. cbn [fst snd]. destruct (nth_error members k) as [mem|] eqn:Ek; [|apply nth_error_None in Ek; lia].
+             rewrite (sobj_member p m i k _ _ _ _ mem Hst Ek). split; [discriminate|]. split; [reflexivity|]. split; [exact Hi|eauto].
+        * intros [H|(Hd & Hm' & _ & st' & Hop)]; [left; exact H|]. right. destruct o as [[m' i'] j]. cbn [fst snd] in *.
+          inversion Hop; subst i' st'. subst m'. rewrite (sobj_stmt p m i j _ Hst) in Hd. cbn [stmt_info] in Hd.
+          destruct (N.eq_dec j 0) as [Hj0|Hj]; [left; rewrite Hj0; reflexivity|right].
+          apply N.eqb_neq in Hj. rewrite Hj in Hd. apply N.eqb_neq in Hj.
+          destruct (nth_error members (N.to_nat (j - 1))) as [mem|] eqn:Ek; [|congruence].
+          exists (N.to_nat (j - 1)). split; [apply nth_error_Some; congruence|]. f_equal. unfold jn. lia.
+      + (* def *)
+        destruct (sname_stmt m i 0 _ _ Hst eq_refl) as [Hn0 Hp0]. cbn [s_name s_parent] in Hn0, Hp0.
+        destruct (Hstatic s (m, i, 0) (i_good s HI) ltac:(rewrite (sobj_stmt p m i 0 _ Hst); discriminate) (Hfresh 0)) as [Hq1 Hq2].
+        rewrite <- Hq1 in Hn0. rewrite <- Hq2 in Hp0.
+        eapply Hnew; [|exact (exec_func_new p nm par Hinj (created s) s m i name doc HA HR Hst (Hfresh 0) Hmod Hn0 Hp0)].
+        intros o. rewrite Hcr. split.
+        * intros [H| ->]; [left; exact H|]. right. cbn [fst snd]. rewrite (sobj_stmt p m i 0 _ Hst). cbn [stmt_info N.eqb].
+          split; [discriminate|]. split; [reflexivity|]. split; [exact Hi|eauto].
+        * intros [H|(Hd & Hm' & _ & st' & Hop)]; [left; exact H|]. right. destruct o as [[m' i'] j]. cbn [fst snd] in *.
+          inversion Hop; subst i' st'. subst m'. rewrite (sobj_stmt p m i j _ Hst) in Hd. cbn [stmt_info] in Hd.
+          destruct (N.eq_dec j 0) as [Hj0|Hj]; [rewrite Hj0; reflexivity|].
+          apply N.eqb_neq in Hj. rewrite Hj in Hd. congruence.
+      + (* variable *)
+        destruct (sname_stmt m i 0 _ _ Hst eq_refl) as [Hn0 Hp0]. cbn [s_name s_parent] in Hn0, Hp0.
+        destruct (Hstatic s (m, i, 0) (i_good s HI) ltac:(rewrite (sobj_stmt p m i 0 _ Hst); discriminate) (Hfresh 0)) as [Hq1 Hq2].
+        rewrite <- Hq1 in Hn0. rewrite <- Hq2 in Hp0.
+        eapply Hnew; [|exact (exec_var_new p nm par Hinj (created s) s m i name doc HA HR Hst (Hfresh 0) Hmod Hn0 Hp0)].
+        intros o. rewrite Hcr. split.
+        * intros [H| ->]; [left; exact H|]. right. cbn [fst snd]. rewrite (sobj_stmt p m i 0 _ Hst). cbn [stmt_info N.eqb].
+          split; [discriminate|]. split; [reflexivity|]. split; [exact Hi|eauto].
+        * intros [H|(Hd & Hm' & _ & st' & Hop)]; [left; exact H|]. right. destruct o as [[m' i'] j]. cbn [fst snd] in *.
+          inversion Hop; subst i' st'. subst m'. rewrite (sobj_stmt p m i j _ Hst) in Hd. cbn [stmt_info] in Hd.
+          destruct (N.eq_dec j 0) as [Hj0|Hj]; [rewrite Hj0; reflexivity|].
+          apply N.eqb_neq in Hj. rewrite Hj in Hd. congruence.
+      + (* name = dotted.name *)
+        apply Hsame; [apply Hunch; intros i' st' E j; inversion E; reflexivity|].
+        cbn [exec_stmt]. cbv zeta. fold m. destruct (nget target (contents_of s (m, 0, 0))).
+        * split; [exact HA|]. split; [exact HR|apply meta_weak_refl].
+        * apply upd_keeps_all; [intros ob; repeat split|intros ob; split; reflexivity|exact HA|exact HR].
+      + (* import *)
+        apply Hsame; [apply Hunch; intros i' st' E j; inversion E; reflexivity|].
+        cbn [exec_stmt]. cbv zeta. destruct (N.eqb asname 0);
+          (apply upd_keeps_all; [intros ob; repeat split|intros ob; split; reflexivity|exact HA|exact HR]).
+      + apply Hsame; [apply Hunch; intros i' st' E j; inversion E; reflexivity|].
+        cbn [exec_stmt]. split; [exact HA|]. split; [exact HR|apply meta_weak_refl].
+      + apply Hsame; [apply Hunch; intros i' st' E j; inversion E; reflexivity|].
+        cbn [exec_stmt]. split; [exact HA|]. split; [exact HR|apply meta_weak_refl].
+      + apply Hsame; [apply Hunch; intros i' st' E j; inversion E; reflexivity|].
+        cbn [exec_stmt]. split; [exact HA|]. split; [exact HR|apply meta_weak_refl].
+    - inversion He; subst s1 fr1 en. apply Hsame; [apply Hunch; intros i' st' E; discriminate|].
+      split; [exact HA|]. split; [exact HR|apply meta_weak_refl].
+    - assert (s1 = s) by (destruct (f_modname (with_todo todo fr)); inversion He; reflexivity). subst s1.
+      apply Hsame; [apply Hunch; intros i' st' E; discriminate|].
+      split; [exact HA|]. split; [exact HR|apply meta_weak_refl].
+    - assert (s1 = s).
+      { destruct (f_modname (with_todo todo fr)); [|inversion He; reflexivity].
+        destruct (f_modobj (with_todo todo fr)) as [mo|]; [|inversion He; reflexivity].
+        destruct (tag_of s mo) as [tg|]; [|inversion He; reflexivity]. destruct (N.eqb tg T_PACKAGE); inversion He; reflexivity. }
+      subst s1. apply Hsame; [apply Hunch; intros i' st' E; discriminate|].
+      split; [exact HA|]. split; [exact HR|apply meta_weak_refl].
+    - (* from ... import name : never a re-export *)
+      apply Hsame; [apply Hunch; intros i' st' E; discriminate|].
+      destruct (f_modname (with_todo todo fr)) as [t|]; [|inversion He; subst; split; [exact HA|split; [exact HR|apply meta_weak_refl]]].
+      inversion He; subst s1 fr1 en. clear He. change (f_mod (with_todo todo fr)) with m.
+      pose proof (Hop_name orgname asname mi eq_refl Hmi) as Hne.
+      unfold import_name. cbv zeta. fold m. rewrite (exports_static s m mi mb HI Hmi Hnu Emb).
+      change (f_modobj (with_todo todo fr)) with (f_modobj fr). destruct (f_modobj fr) as [g|].
+      + rewrite (handle_reexport_not_exported s (m, 0, 0) _ orgname asname g Hne).
+        apply upd_keeps_all; [intros ob; repeat split|intros ob; split; reflexivity|exact HA|exact HR].
+      + apply upd_keeps_all; [intros ob; repeat split|intros ob; split; reflexivity|exact HA|exact HR].
+    - (* from ... import * : the module exports nothing *)
+      apply Hsame; [apply Hunch; intros i' st' E; discriminate|].
+      destruct (f_modname (with_todo todo fr)) as [t|]; [|inversion He; subst; split; [exact HA|split; [exact HR|apply meta_weak_refl]]].
+      destruct (f_modobj (with_todo todo fr)) as [g|]; [|inversion He; subst; split; [exact HA|split; [exact HR|apply meta_weak_refl]]].
+      inversion He; subst s1 fr1 en. clear He. change (f_mod (with_todo todo fr)) with m.
+      pose proof (Hop_all mi eq_refl Hmi) as Hne.
+      unfold import_all. cbv zeta. fold m. rewrite (exports_static s m mi mb HI Hmi Hnu Emb), Hne.
+      match goal with |- context [fold_left ?f ?l0 s] => generalize l0; set (F := f) end. intros l.
+      assert (Hfold : forall s0, OA p nm par (created s) s0 /\ OR p nm par (created s) s0 /\ meta_weak (m, 0, 0) s s0 ->
+                                 OA p nm par (created s) (fold_left F l s0) /\ OR p nm par (created s) (fold_left F l s0) /\
+                                 meta_weak (m, 0, 0) s (fold_left F l s0)).
+      { induction l as [|name l IH]; intros s0 H0; cbn [fold_left]; [exact H0|]. apply IH.
+        destruct H0 as (A0 & R0 & M0). unfold F.
+        rewrite (handle_reexport_not_exported s0 (m, 0, 0) [] name name g (fun x => x)).
+        destruct (upd_keeps_all p nm par (created s) s0 (m, 0, 0)
+                    (fun mb0 => with_alias (nset name (expand_name s0 g [name]) (o_alias mb0)) mb0)) as (A1 & R1 & M1);
+          [intros ob; repeat split|intros ob; split; reflexivity|exact A0|exact R0|].
+        split; [exact A1|]. split; [exact R1|eapply meta_weak_trans; eassumption]. }
+      apply Hfold. split; [exact HA|]. split; [exact HR|apply meta_weak_refl].
+  Qed.
+
+  Lemma Inv_op s fr rest op todo s1 fr1 en :
+    Inv s -> frames s = fr :: rest -> f_todo fr = op :: todo ->
+    exec_op s (with_todo todo fr) op = (s1, fr1, en) -> Ctl p (set_frames s1 (fr1 :: rest)) ->
+    Good (set_frames s1 (fr1 :: rest)) ->
+    (* the operation is not a re-exporting import *)
+    (forall o a mi, op = MImportName o a -> modinfo_of p (f_mod fr) = Some mi -> ~ In a (exports_of_mod mi)) ->
+    (forall mi, op = MImportAll -> modinfo_of p (f_mod fr) = Some mi -> exports_of_mod mi = []) ->
+    Inv (set_frames s1 (fr1 :: rest)).
+  Proof.
+    intros HI Hf Ht He HC2 HG2 Hop_name Hop_all.
+    pose proof (ctl_exec_op s (with_todo todo fr) op) as Hctl. pose proof (exec_op_frame s (with_todo todo fr) op) as Hfr.
+    rewrite He in Hctl, Hfr. cbn [fst snd] in Hctl, Hfr. destruct Hfr as (Hfm & Hft). cbn [with_todo f_mod f_todo] in Hfm, Hft.
+    destruct (op_triple s fr rest op todo s1 fr1 en HI Hf Ht He Hop_name Hop_all) as (A & R & M).
+    exact (Inv_op_core s fr rest op todo s1 fr1 HI Hf Ht Hctl Hfm Hft HC2 HG2 A R M).
+  Qed.
 End Glue.
+
+Section Final.
+  Variable p : project.
+  Hypothesis Hinj : keys_distinct p.
+  Hypothesis Hnomove : no_move p.
+
+  Notation nm := (sname p).
+  Notation par := (sparent p).
+
+  Definition GoodT (s : state) : Prop := True.
+  Lemma static0 : forall s o, GoodT s -> sobj p o <> None -> ~ created_of p s o -> nm o = sname p o /\ par o = sparent p o.
+  Proof. intros; split; reflexivity. Qed.
+
+  Notation Inv0 := (Inv p nm par GoodT).
+
+  Lemma Inv_step s s' : Inv0 s -> step p s = Next s' -> Inv0 s'.
+  Proof.
+    intros HI H. pose proof (Ctl_step p s s' (i_ctl p _ _ _ s HI) H) as HC'.
+    destruct (step_cases p _ _ H) as [(Hf & m & rest & Hu & Hb)|[(fr & rest & Hf & Ht & ->)|
+      (fr & rest & op & todo & s1 & fr1 & en & Hf & Ht & He & Hen)]].
+    - eapply Inv_begin; [eassumption|eassumption|exact I].
+    - apply Inv_finish; [assumption|assumption|assumption|assumption|exact I].
+    - pose proof (Ctl_op p s fr rest op todo s1 fr1 en (i_ctl p _ _ _ s HI) Hf He) as HC1.
+      destruct (op_mi p nm par GoodT s fr rest op todo HI Hf Ht) as (mi & pre & Hmi & Hexp).
+      assert (HI1 : Inv0 (set_frames s1 (fr1 :: rest))).
+      { eapply (Inv_op p nm par Hinj GoodT static0 s fr rest op todo s1 fr1 en HI Hf Ht He HC1 I).
+        - intros o a mi' Hop Hmi'. rewrite Hmi in Hmi'. inversion Hmi'; subst mi'.
+          assert (Hin : In (MImportName o a) (expand_stmts (m_stmts mi))) by (rewrite Hexp, Hop; apply in_or_app; right; left; reflexivity).
+          destruct (In_expand_from_ImportName _ _ _ _ Hin) as (lv & mn & names & Hst & Hoa).
+          exact (Hnomove _ mi _ Hmi Hst (o, a) Hoa).
+        - intros mi' Hop Hmi'. rewrite Hmi in Hmi'. inversion Hmi'; subst mi'.
+          assert (Hin : In MImportAll (expand_stmts (m_stmts mi))) by (rewrite Hexp, Hop; apply in_or_app; right; left; reflexivity).
+          destruct (In_expand_from_ImportAll _ _ Hin) as (lv & mn & Hst).
+          exact (Hnomove _ mi _ Hmi Hst). }
+      destruct (ensure_cases p _ _ _ Hen) as [->|(o & _ & _ & Hb)]; [exact HI1|].
+      eapply Inv_begin; [eassumption|eassumption|exact I].
+  Qed.
+
+  Lemma sobj_module_tag o si :
+    sobj p o = Some si -> is_module_tag (s_tag si) = true -> modinfo_of p (fst (fst o)) <> None.
+  Proof.
+    destruct o as [[m i] j]. unfold sobj. cbn [fst snd]. destruct (N.eqb i 0).
+    - destruct (N.eqb j 0); [|discriminate]. destruct (modinfo_of p m); [discriminate|discriminate].
+    - destruct (stmt_at p m i) as [st|]; [|discriminate].
+      destruct st; cbn [stmt_info]; try discriminate.
+      + destruct (N.eqb j 0); [intros H; inversion H; subst; cbn; discriminate|].
+        destruct (nth_error members (N.to_nat (j - 1))) as [[[mk n] d]|]; [|discriminate].
+        intros H; inversion H; subst. unfold member_info. destruct (N.eqb mk 0); cbn; discriminate.
+      + destruct (N.eqb j 0); [intros H; inversion H; subst; cbn; discriminate|discriminate].
+      + destruct (N.eqb j 0); [intros H; inversion H; subst; cbn; discriminate|discriminate].
+  Qed.
+
+  Lemma Inv_modules_valid nm' par' Good' s : Inv p nm' par' Good' s -> modules_valid p s.
+  Proof.
+    intros HI o ob Ho Ht. pose proof (i_oa p _ _ _ s HI) as HA.
+    assert (Hc : created_of p s o) by (apply (oa_exists _ _ _ _ _ HA); congruence).
+    pose proof (oa_dom _ _ _ _ _ HA o Hc) as Hd. destruct (sobj p o) as [si|] eqn:Es; [|congruence].
+    destruct (oa_static _ _ _ _ _ HA o ob si Ho Es) as (Htag & _). rewrite Htag in Ht.
+    eapply sobj_module_tag; eassumption.
+  Qed.
+
+  Lemma run_machine_ok fuel : forall s,
+    Inv0 s -> (mu p s < fuel)%nat ->
+    exists s', run_machine p fuel s = Ok s' /\ Inv0 s' /\ frames s' = [] /\ unproc s' = [].
+  Proof.
+    induction fuel as [|f IH]; intros s HI Hlt; [lia|]. cbn [run_machine].
+    destruct (step p s) as [s1| |n] eqn:Es.
+    - apply IH; [eapply Inv_step; eassumption|]. pose proof (step_mu p _ _ Es). lia.
+    - exists s. destruct (step_halt p s Es). auto.
+    - exfalso. exact (step_not_stuck p s n (i_ctl p _ _ _ s HI) (Inv_modules_valid _ _ _ s HI) Es).
+  Qed.
+End Final.
+
+(* ================================================================ the initial state: every module added, none processed *)
+Section Init.
+  Variable p : project.
+  Hypothesis Hinj : keys_distinct p.
+  Hypothesis Hwf : parents_first p.
+
+  Notation nm := (sname p).
+  Notation par := (sparent p).
+
+  Definition Cmods (k : nat) (o : oid) : Prop := exists m, o = (N.of_nat m, 0, 0) /\ (m < k)%nat /\ (m < length p)%nat.
+
+  Record AM (k : nat) (s : state) : Prop := {
+    am_oa : OA p nm par (Cmods k) s;
+    am_or : OR p nm par (Cmods k) s;
+    am_frames : frames s = [];
+    am_mst : forall m, mst s m = UNPROCESSED;
+    am_unproc : unproc s = map N.of_nat (seq 0 k);
+    am_meta : forall o ob, objs s o = Some ob -> o_doc ob = 0 /\ o_all ob = None }.
+
+  Lemma modinfo_nat k : modinfo_of p (N.of_nat k) = nth_error p k.
+  Proof. unfold modinfo_of. rewrite Nat2N.id. reflexivity. Qed.
+
+  Lemma sobj_module k mi :
+    nth_error p k = Some mi ->
+    sobj p (N.of_nat k, 0, 0) =
+    Some {| s_tag := if m_pkg mi then T_PACKAGE else T_MODULE; s_kind := if m_pkg mi then K_PACKAGE else K_MODULE;
+            s_name := m_name mi; s_parent := match m_parent mi with Some q => Some (q, 0, 0) | None => None end;
+            s_doc := m_doc mi |}.
+  Proof. intros H. unfold sobj. cbn [N.eqb]. rewrite modinfo_nat, H. reflexivity. Qed.
+
+  Lemma add_module_AM k mi s : nth_error p k = Some mi -> AM k s -> AM (S k) (add_module s (N.of_nat k) mi).
+  Proof.
+    intros Hk [HA HR Hfr Hmst Hun Hmeta].
+    assert (Hklt : (k < length p)%nat) by (apply nth_error_Some; congruence).
+    set (o := (N.of_nat k, 0, 0)). pose proof (sobj_module k mi Hk) as Hs. fold o in Hs.
+    assert (HnC : ~ Cmods k o).
+    { intros (m & E & Hm & _). unfold o in E. inversion E as [E']. apply Nat2N.inj in E'. lia. }
+    assert (Hext : forall x, (Cmods k x \/ x = o) <-> Cmods (S k) x).
+    { intros x. unfold Cmods, o. split.
+      - intros [(m & E & Hm & Hl)| ->]; [exists m; repeat split; [exact E|lia|exact Hl]|exists k; repeat split; [lia|exact Hklt]].
+      - intros (m & E & Hm & Hl). destruct (Nat.eq_dec m k) as [->|Hne]; [right; exact E|left; exists m; repeat split; [exact E|lia|exact Hl]]. }
+    set (s0 := set_unproc s (unproc s ++ [N.of_nat k])).
+    assert (HA0 : OA p nm par (Cmods k) s0) by (eapply (OA_same p nm par _ s); [reflexivity|reflexivity|exact HA]).
+    assert (HR0 : OR p nm par (Cmods k) s0) by (eapply (OR_same p nm par _ s); [reflexivity|exact HR]).
+    assert (Hun0 : unproc s0 = map N.of_nat (seq 0 (S k))).
+    { unfold s0. cbn [set_unproc unproc]. rewrite Hun, seq_S, map_app. reflexivity. }
+    assert (Hnm : nm o = m_name mi) by (unfold sname; rewrite Hs; reflexivity).
+    destruct (m_parent mi) as [q|] eqn:Eq.
+    - (* a sub-module: its package was added before *)
+      set (ob := new_obj (if m_pkg mi then T_PACKAGE else T_MODULE) (if m_pkg mi then K_PACKAGE else K_MODULE) (m_name mi)
+                         (Some (q, 0, 0)) 0).
+      assert (Eam : add_module s (N.of_nat k) mi = add_object s0 o ob) by (unfold add_module; rewrite Eq; reflexivity).
+      rewrite Eam.
+      assert (Hq : q < N.of_nat k) by (eapply Hwf; [rewrite modinfo_nat; exact Hk|exact Eq]).
+      assert (Hpar : par o = Some (q, 0, 0)) by (unfold sparent; rewrite Hs; reflexivity).
+      assert (HP : Cmods k (q, 0, 0)).
+      { exists (N.to_nat q). rewrite N2Nat.id. repeat split; lia. }
+      destruct (add_object_new p nm par Hinj (Cmods k) s0 o ob _ (q, 0, 0) HA0 HR0 HnC Hs Hpar HP eq_refl eq_refl
+                               (eq_sym Hnm) eq_refl eq_refl (fun H => match H eq_refl with end))
+        as (A & R & Hoth & Hnew & (pb & EP & EP')).
+      pose proof (ctl_add_object s0 o ob) as (C1 & C2 & C3 & _).
+      constructor.
+      + eapply OA_ext; [exact Hext|exact A].
+      + eapply OR_ext; [exact Hext|exact R].
+      + rewrite C3. exact Hfr.
+      + intros m. rewrite C1. apply Hmst.
+      + rewrite C2. exact Hun0.
+      + intros x xb Hx. destruct (oid_eq_dec x o) as [->|Hxo].
+        * rewrite Hnew in Hx. inversion Hx; subst xb. split; reflexivity.
+        * destruct (oid_eq_dec x (q, 0, 0)) as [->|HxP].
+          -- rewrite EP' in Hx. inversion Hx; subst xb. cbn [with_contents o_doc o_all]. apply (Hmeta (q, 0, 0)). exact EP.
+          -- rewrite (Hoth x Hxo HxP) in Hx. apply (Hmeta x). exact Hx.
+    - (* a root module *)
+      set (ob := new_obj (if m_pkg mi then T_PACKAGE else T_MODULE) (if m_pkg mi then K_PACKAGE else K_MODULE) (m_name mi)
+                         None 0).
+      unfold add_module. rewrite Eq. cbv zeta. fold o. fold s0. fold ob.
+      assert (Hpar : par o = None) by (unfold sparent; rewrite Hs; reflexivity).
+      destruct (add_root_new p nm par Hinj (Cmods k) s0 o ob _ HA0 HR0 HnC Hs Hpar eq_refl eq_refl (eq_sym Hnm) eq_refl eq_refl
+                             (fun H => match H eq_refl with end)) as (Hnone & A & R).
+      rewrite (key_root p nm par o Hpar), Hnm in Hnone, A, R.
+      cbn [allobjs set_obj] . change (allobjs s0) with (allobjs s) in *. rewrite Hnone.
+      constructor.
+      + eapply OA_ext; [exact Hext|]. eapply OA_same; [| |exact A]; reflexivity.
+      + eapply OR_ext; [exact Hext|]. eapply OR_same; [|exact R]. reflexivity.
+      + exact Hfr.
+      + exact Hmst.
+      + exact Hun0.
+      + intros x xb. cbn [set_all objs]. rewrite objs_set_obj. destruct (oid_eqb x o).
+        * intros Hx. inversion Hx; subst xb. split; reflexivity.
+        * apply Hmeta.
+  Qed.
+
+  Lemma add_modules_AM l : forall pre s,
+    p = pre ++ l -> AM (length pre) s -> AM (length p) (add_modules s (N.of_nat (length pre)) l).
+  Proof.
+    induction l as [|mi l IH]; intros pre s Hp HAM; cbn [add_modules].
+    - rewrite Hp, app_nil_r. exact HAM.
+    - assert (Hk : nth_error p (length pre) = Some mi).
+      { rewrite Hp, nth_error_app2 by lia. rewrite Nat.sub_diag. reflexivity. }
+      replace (N.of_nat (length pre) + 1) with (N.of_nat (length (pre ++ [mi]))) by (rewrite app_length; cbn [length]; lia).
+      apply IH; [rewrite <- app_assoc; exact Hp|].
+      rewrite app_length. cbn [length]. replace (length pre + 1)%nat with (S (length pre)) by lia.
+      apply add_module_AM; assumption.
+  Qed.
+
+  Lemma AM_empty : AM 0 (empty_state p).
+  Proof.
+    constructor.
+    - constructor.
+      + reflexivity.
+      + intros o (m & _ & Hm & _). lia.
+      + intros o. cbn [empty_state objs]. split; [congruence|]. intros (m & _ & Hm & _). lia.
+      + intros o ob si H. discriminate.
+      + intros o q (m & _ & Hm & _). lia.
+      + intros S ob n o H. discriminate.
+      + intros o S (m & _ & Hm & _). lia.
+      + intros S sb H. discriminate.
+    - constructor.
+      + intros k o H. discriminate.
+      + intros o (m & _ & Hm & _). lia.
+      + constructor.
+    - reflexivity.
+    - reflexivity.
+    - reflexivity.
+    - intros o ob H. discriminate.
+  Qed.
+
+  Lemma module_ids_In m : In m (module_ids p) <-> modinfo_of p m <> None.
+  Proof.
+    unfold module_ids, modinfo_of. rewrite in_map_iff. split.
+    - intros (k & <- & Hk). apply in_seq in Hk. rewrite Nat2N.id. apply nth_error_Some. lia.
+    - intros H. apply nth_error_Some in H. exists (N.to_nat m). split; [apply N2Nat.id|apply in_seq; lia].
+  Qed.
+
+  Lemma module_ids_NoDup : NoDup (module_ids p).
+  Proof.
+    unfold module_ids. apply FinFun.Injective_map_NoDup; [intros a b; apply Nat2N.inj|apply seq_NoDup].
+  Qed.
+
+  Lemma Inv_init sigma : Permutation sigma (module_ids p) -> Inv p nm par GoodT (init_state p sigma).
+  Proof.
+    intros Hperm. pose proof (add_modules_AM p [] (empty_state p) eq_refl AM_empty) as HAM. cbn [length] in HAM.
+    change (N.of_nat 0) with 0 in HAM. set (sa := add_modules (empty_state p) 0 p) in *.
+    destruct HAM as [HA HR Hfr Hmst Hun Hmeta]. unfold init_state. fold sa.
+    assert (Hin : forall m, In m sigma <-> modinfo_of p m <> None).
+    { intros m. rewrite <- module_ids_In. split; [apply Permutation_in; exact Hperm|apply Permutation_in; apply Permutation_sym; exact Hperm]. }
+    assert (Hcr : forall o, Cmods (length p) o <-> created_of p (set_unproc sa sigma) o).
+    { intros [[m i] j]. unfold created_of, Cmods, pending_of. cbn [fst snd set_unproc unproc frames]. rewrite Hfr. split.
+      - intros (k & E & _ & Hk). inversion E; subst. split; [|left; reflexivity].
+        destruct (nth_error p k) as [mi|] eqn:Ek; [rewrite (sobj_module k mi Ek); discriminate|apply nth_error_None in Ek; lia].
+      - intros [Hd [->|Hn]].
+        + unfold sobj in Hd. cbn [N.eqb] in Hd. destruct (N.eqb j 0) eqn:Ej; [|congruence]. apply N.eqb_eq in Ej. subst j.
+          destruct (modinfo_of p m) eqn:Em; [|congruence].
+          exists (N.to_nat m). rewrite N2Nat.id. split; [reflexivity|].
+          assert (N.to_nat m < length p)%nat by (apply nth_error_Some; unfold modinfo_of in Em; congruence). lia.
+        + exfalso. destruct (N.eq_dec i 0) as [->|Hi].
+          * apply Hn. left. apply Hin. unfold sobj in Hd. cbn [N.eqb] in Hd. destruct (N.eqb j 0); [|congruence].
+            destruct (modinfo_of p m); congruence.
+          * apply Hn. left. apply Hin. unfold sobj in Hd. apply N.eqb_neq in Hi. rewrite Hi in Hd.
+            unfold stmt_at in Hd. destruct (modinfo_of p m); congruence. }
+    constructor.
+    - constructor; cbn [set_unproc unproc mst frames].
+      + eapply Permutation_NoDup; [apply Permutation_sym; exact Hperm|apply module_ids_NoDup].
+      + intros m. rewrite Hin, Hmst. tauto.
+      + rewrite Hfr. intros fr [].
+      + rewrite Hfr. constructor.
+    - eapply OA_ext; [exact Hcr|]. eapply (OA_same p nm par _ sa); [reflexivity|reflexivity|exact HA].
+    - eapply OR_ext; [exact Hcr|]. eapply (OR_same p nm par _ sa); [reflexivity|exact HR].
+    - cbn [set_unproc frames]. rewrite Hfr. intros fr [].
+    - intros m mb mi Hmb Hmi. cbn [set_unproc objs unproc] in *. destruct (Hmeta _ _ Hmb) as [D1 D2].
+      split; [intros _; split; assumption|]. intros Hn. exfalso. apply Hn. apply Hin. congruence.
+    - exact I.
+  Qed.
+End Init.
+
+(* ================================================================ the theorem *)
+Section MainTheorem.
+  Variable p : project.
+  Hypothesis Hwf : parents_first p.
+  Hypothesis Hinj : keys_distinct p.
+  Hypothesis Hnomove : no_move p.
+
+  Lemma frames_add_module s m mi : frames (add_module s m mi) = frames s.
+  Proof.
+    unfold add_module. cbv zeta. destruct (m_parent mi).
+    - destruct (ctl_add_object (set_unproc s (unproc s ++ [m])) (m, 0, 0)
+                               (new_obj (if m_pkg mi then T_PACKAGE else T_MODULE) (if m_pkg mi then K_PACKAGE else K_MODULE)
+                                        (m_name mi) (Some (n, 0, 0)) 0)) as (_ & _ & H & _). exact H.
+    - match goal with |- context [pget ?k ?l] => destruct (pget k l) end; reflexivity.
+  Qed.
+
+  Lemma frames_add_modules l : forall s k, frames (add_modules s k l) = frames s.
+  Proof. induction l as [|mi l IH]; intros s k; cbn [add_modules]; [reflexivity|]. rewrite IH. apply frames_add_module. Qed.
+
+  Lemma unproc_cost_perm a b : Permutation a b -> unproc_cost p a = unproc_cost p b.
+  Proof.
+    induction 1 as [|x a b _ IH|x y a|a b c _ IH1 _ IH2]; cbn [unproc_cost fold_right] in *;
+      unfold unproc_cost in *; lia.
+  Qed.
+
+  Lemma unproc_cost_ids l : forall pre,
+    p = pre ++ l ->
+    unproc_cost p (map N.of_nat (seq (length pre) (length l))) = fold_right (fun mi a => mod_cost mi + 2 + a)%nat 0%nat l.
+  Proof.
+    induction l as [|mi l IH]; intros pre Hp; cbn [length seq map unproc_cost fold_right]; [reflexivity|].
+    assert (Hk : nth_error p (length pre) = Some mi) by (rewrite Hp, nth_error_app2 by lia; rewrite Nat.sub_diag; reflexivity).
+    unfold cost_of at 1. rewrite (modinfo_nat p), Hk.
+    specialize (IH (pre ++ [mi])). rewrite app_length in IH. cbn [length] in IH.
+    replace (length pre + 1)%nat with (S (length pre)) in IH by lia.
+    unfold unproc_cost in IH. rewrite IH by (rewrite <- app_assoc; exact Hp). reflexivity.
+  Qed.
+
+  Lemma run_fuel_sum : run_fuel p = S (fold_right (fun mi a => mod_cost mi + 2 + a)%nat 0%nat p).
+  Proof.
+    unfold run_fuel.
+    assert (H : forall l : project, fold_right (fun mi a => mod_cost mi + 2 + a)%nat 1%nat l =
+                                    S (fold_right (fun mi a => mod_cost mi + 2 + a)%nat 0%nat l)).
+    { induction l as [|mi l IH]; cbn [fold_right]; [reflexivity|]. rewrite IH. lia. }
+    apply H.
+  Qed.
+
+  Lemma init_mu sigma : Permutation sigma (module_ids p) -> (mu p (init_state p sigma) < run_fuel p)%nat.
+  Proof.
+    intros Hperm. unfold mu, init_state. cbn [set_unproc frames unproc]. rewrite frames_add_modules. cbn [empty_state frames frames_cost fold_right].
+    rewrite (unproc_cost_perm _ _ Hperm). unfold module_ids.
+    pose proof (unproc_cost_ids p [] eq_refl) as H. cbn [length] in H. rewrite H, run_fuel_sum. lia.
+  Qed.
+
+  (* what the registry says about a qualified name: (class, kind, docstring) *)
+  Definition static_entry (k : path) (e : N * N * N) : Prop :=
+    exists o si, sobj p o = Some si /\ skey p o = k /\ e = (s_tag si, s_kind si, s_doc si).
+
+  Theorem registry_static sigma :
+    Permutation sigma (module_ids p) ->
+    exists s, run_state p sigma = Ok s /\ forall k e, reg_entry s k = Some e <-> static_entry k e.
+  Proof.
+    intros Hperm. unfold run_state.
+    destruct (run_machine_ok p Hinj Hnomove (run_fuel p) (init_state p sigma) (Inv_init p Hinj Hwf sigma Hperm) (init_mu sigma Hperm))
+      as (s & Hrun & HI & Hfr & Hun).
+    exists s. split; [exact Hrun|].
+    pose proof (i_oa p _ _ _ s HI) as HA. pose proof (i_or p _ _ _ s HI) as HR.
+    assert (Hcr : forall o, created_of p s o <-> sobj p o <> None).
+    { intros o. unfold created_of, pending_of. rewrite Hfr, Hun. split; [tauto|]. intros Hd. split; [exact Hd|]. right.
+      intros [[]|(fr & st & [] & _)]. }
+    assert (Hinfo : forall o ob si, objs s o = Some ob -> sobj p o = Some si ->
+                                    (o_tag ob, o_kind ob, o_doc ob) = (s_tag si, s_kind si, s_doc si)).
+    { intros o ob si Ho Hs. destruct (oa_static _ _ _ _ _ HA o ob si Ho Hs) as (T & K & _ & _ & D).
+      rewrite T, K. f_equal. destruct o as [[m i] j]. cbn [fst snd] in D.
+      destruct (N.eq_dec i 0) as [->|Hi]; [|apply D; exact Hi].
+      unfold sobj in Hs. cbn [N.eqb] in Hs. destruct (N.eqb j 0) eqn:Ej; [|discriminate]. apply N.eqb_eq in Ej. subst j.
+      destruct (modinfo_of p m) as [mi|] eqn:Em; [|discriminate]. inversion Hs; subst si. cbn [s_doc].
+      destruct (i_meta p _ _ _ s HI m ob mi Ho Em) as [_ B]. rewrite Hun in B. destruct (B (fun x => x)) as [-> _]. reflexivity. }
+    intros k e. unfold reg_entry, static_entry. split.
+    - destruct (pget k (allobjs s)) as [o|] eqn:Ek; [|discriminate].
+      destruct (or_sound _ _ _ _ _ HR k o Ek) as [Co Ko]. apply Hcr in Co.
+      destruct (objs s o) as [ob|] eqn:Eo; [|discriminate]. destruct (sobj p o) as [si|] eqn:Es; [|congruence].
+      intros H. inversion H; subst e. exists o, si. split; [exact Es|]. split; [exact Ko|]. eapply Hinfo; eassumption.
+    - intros (o & si & Hs & Hk & ->).
+      assert (Co : created_of p s o) by (apply Hcr; congruence).
+      pose proof (or_complete _ _ _ _ _ HR o Co) as Hget. change (key p (sname p) (sparent p) o) with (skey p o) in Hget. rewrite Hk in Hget. rewrite Hget.
+      destruct (objs s o) as [ob|] eqn:Eo; [|exfalso; apply (oa_exists _ _ _ _ _ HA) in Co; congruence].
+      f_equal. eapply Hinfo; eassumption.
+  Qed.
+
+  (* ... hence the same for any two processing orders *)
+  Theorem registry_order_free sigma1 sigma2 :
+    Permutation sigma1 (module_ids p) -> Permutation sigma2 (module_ids p) ->
+    exists s1 s2, run_state p sigma1 = Ok s1 /\ run_state p sigma2 = Ok s2 /\
+                  forall k, reg_entry s1 k = reg_entry s2 k.
+  Proof.
+    intros H1 H2. destruct (registry_static sigma1 H1) as (s1 & R1 & E1). destruct (registry_static sigma2 H2) as (s2 & R2 & E2).
+    exists s1, s2. split; [exact R1|]. split; [exact R2|]. intros k.
+    destruct (reg_entry s1 k) as [e1|] eqn:A.
+    - apply E1 in A. apply E2 in A. symmetry. exact A.
+    - destruct (reg_entry s2 k) as [e2|] eqn:B; [|reflexivity]. apply E2 in B. apply E1 in B. congruence.
+  Qed.
+End MainTheorem.
